@@ -172,6 +172,10 @@ def oracle(run, case, real):
         sent_jpg = msgs[t][0]['img'][3] == 'jpg'
         if oj is not None and sent_jpg != oj:
             run.violation(tag + 'roundtrip:encoding ' + key, 'outs_jpg=%r but sent %r' % (oj, msgs[t][0]['img'][3]), case)
+        if oj is None and sent_jpg != bool(had_jpg[t]):
+            # "send as is": a picture held as jpg goes out as that jpg, one held as pixels goes out as those pixels - topic by topic
+            run.violation(tag + 'roundtrip:as-is ' + key, 'outs_jpg=None (as is): the frame %s and was sent as %r'
+                          % ('holds a jpg' if had_jpg[t] else 'holds pixels only', msgs[t][0]['img'][3]), case)
         want_shape = (src.height, src.width) if src.format == 'GRAY' else (src.height, src.width, 3)
         gi = got.image
         if gi.shape != want_shape:
